@@ -50,6 +50,12 @@ func convert(v any, pt string) (any, convStatus) {
 	if pt == "any" {
 		return v, convOK
 	}
+	if pt == "rec" {
+		if _, ok := v.(Rec); ok {
+			return v, convOK
+		}
+		return nil, convUnspecified
+	}
 	if strings.HasPrefix(pt, "*") {
 		// pointer parameters take the pointer the data holds ("values from template data retain
 		// their original types"); anything else into a pointer parameter is not documented
@@ -246,14 +252,14 @@ func init() {
 	// documented domain (upper of a number, len of an int, title of mixed case, …) are
 	// unspecified and excluded through accepts.
 	reg(&fnSpec{name: "upper", params: []string{"any"}, builtin: true, shared: true, accepts: isStr,
-		call: func(in []any) (any, error) { return strings.ToUpper(in[0].(string)), nil }})
+		call: func(in []any) (any, error) { return ovr("UP:") + strings.ToUpper(in[0].(string)), nil }})
 	reg(&fnSpec{name: "lower", params: []string{"any"}, builtin: true, shared: true, accepts: isStr,
-		call: func(in []any) (any, error) { return strings.ToLower(in[0].(string)), nil }})
+		call: func(in []any) (any, error) { return ovr("lo:") + strings.ToLower(in[0].(string)), nil }})
 	reg(&fnSpec{name: "trim", params: []string{"any"}, builtin: true, shared: true, accepts: isStr,
-		call: func(in []any) (any, error) { return strings.TrimSpace(in[0].(string)), nil }})
+		call: func(in []any) (any, error) { return ovr("tr:") + strings.TrimSpace(in[0].(string)), nil }})
 	reg(&fnSpec{name: "title", params: []string{"any"}, builtin: true,
 		accepts: func(v any) bool { s, ok := v.(string); return ok && isLowerAlpha(s) },
-		call:    func(in []any) (any, error) { return titleWords(in[0].(string)), nil }})
+		call:    func(in []any) (any, error) { return ovr("Ti:") + titleWords(in[0].(string)), nil }})
 	reg(&fnSpec{name: "escape", params: []string{"any"}, builtin: true, // harmless strings only: identity
 		accepts: func(v any) bool { s, ok := v.(string); return ok && !strings.ContainsAny(s, `<>&'"`) },
 		call:    func(in []any) (any, error) { return in[0], nil }})
@@ -269,10 +275,10 @@ func init() {
 		accepts: func(v any) bool { return isStr(v) || isContainer(v) },
 		call: func(in []any) (any, error) {
 			if x, ok := in[0].(string); ok {
-				return len(x), nil
+				return len(x) + ovrN(), nil
 			}
 			if isContainer(in[0]) {
-				return reflect.ValueOf(in[0]).Len(), nil
+				return reflect.ValueOf(in[0]).Len() + ovrN(), nil
 			}
 			return nil, fmt.Errorf("model: len of %T", in[0])
 		}})
@@ -347,6 +353,9 @@ func init() {
 	reg(&fnSpec{name: "round", params: []string{"float64", "int"},
 		impl: roundTo,
 		call: func(in []any) (any, error) { return roundTo(in[0].(float64), in[1].(int)), nil }})
+	reg(&fnSpec{name: "recname", params: []string{"rec"}, // a struct VALUE parameter
+		impl: func(r Rec) string { return r.Name + "#" + strconv.Itoa(r.Age) },
+		call: func(in []any) (any, error) { r := in[0].(Rec); return r.Name + "#" + strconv.Itoa(r.Age), nil }})
 	reg(&fnSpec{name: "kinds", params: []string{"any", "any"},
 		impl: func(v, w any) string { return fmt.Sprintf("%T,%T", v, w) },
 		call: func(in []any) (any, error) { return fmt.Sprintf("%T,%T", in[0], in[1]), nil }})
@@ -460,12 +469,17 @@ var sigNameRe = regexp.MustCompile(`sgC?_\w*`)
 func funcMapFor(text string) vuego.FuncMap {
 	base := funcMap()
 	names := sigNameRe.FindAllString(text, -1)
-	if len(names) == 0 {
+	if len(names) == 0 && !overrideOn {
 		return base
 	}
-	m := make(vuego.FuncMap, len(base)+len(names))
+	m := make(vuego.FuncMap, len(base)+len(names)+5)
 	for k, v := range base {
 		m[k] = v
+	}
+	if overrideOn {
+		for k, v := range overrides() {
+			m[k] = v
+		}
 	}
 	for _, n := range names {
 		if f, ok := funcs[n]; ok && f.sig {
@@ -514,4 +528,46 @@ func roundTo(x float64, digits int) float64 {
 	}
 	p := math.Pow(10, float64(digits))
 	return math.Round(x*p) / p
+}
+
+// overrideOn: the case registers its own upper / lower / trim / title / len, REPLACING the
+// default functions of those names with distinguishable behaviour (a prefix, +100). Set for the
+// duration of one generation / one check; both are sequential.
+var overrideOn bool
+
+func ovr(prefix string) string {
+	if overrideOn {
+		return prefix
+	}
+	return ""
+}
+
+func ovrN() int {
+	if overrideOn {
+		return 100
+	}
+	return 0
+}
+
+// overrides are the replacements handed to vuego when overrideOn.
+func overrides() vuego.FuncMap {
+	str := func(prefix string, f func(string) string) func(any) any {
+		return func(v any) any {
+			if s, ok := v.(string); ok {
+				return prefix + f(s)
+			}
+			return v
+		}
+	}
+	return vuego.FuncMap{
+		"upper": str("UP:", strings.ToUpper), "lower": str("lo:", strings.ToLower), "trim": str("tr:", strings.TrimSpace), "title": str("Ti:", titleWords),
+		"len": func(v any) int {
+			rv := reflect.ValueOf(v)
+			switch rv.Kind() {
+			case reflect.String, reflect.Slice, reflect.Array, reflect.Map:
+				return rv.Len() + 100
+			}
+			return 100
+		},
+	}
 }
